@@ -313,6 +313,11 @@ def scenarios(tier):
     ('path missing at start, created later', {'parent_exists': False, 'script': [['create_parent'], ['create', M0], ['create', M1], ['delete', M0]]}),
     ('members present at start, path deleted', {'initial': [M0, M1], 'script': [['delete', M0], ['delete', M1], ['delete_parent'], ['create_parent'], ['create', M1]]}),
     ('consumer callbacks raise', {'script': [['create', M0], ['create', M1], ['delete', M0], ['create', M2]], 'raise_on': [1, 3]}),
+    ('path deleted while members are cached, a leave callback raises',
+     {'initial': [M0, M1], 'script': [['delete', M0], ['delete', M1], ['delete_parent']], 'raise_on': [3]}),
+    ('path deleted while 3 members are cached, leave callbacks raise',
+     {'initial': [M0, M1, M2], 'script': [['delete', M0], ['delete', M1], ['delete', M2], ['delete_parent'], ['create_parent'], ['create', M1]],
+      'raise_on': [4, 5]}),
     ('second reader lists members concurrently', {'initial': [M0], 'script': [['read'], ['create', M1], ['delete', M0], ['read'], ['create', M0]]}),
   ]
   if tier == 'thorough':
